@@ -11,6 +11,7 @@ THEOREMS = {
         "Dawgs.C02.Props.agg_count_depth_needs_guard", "Dawgs.C02.Props.alias_declaration_tie", "Dawgs.C02.Props.collect_id_lowering_blocked_by_reprojection",
         "Dawgs.C02.Props.collect_id_by_symbol_differs", "Dawgs.C02.Props.countWhere_ok", "Dawgs.C02.Props.ofCyChain_wf", "Dawgs.C02.Props.hop_not_chain", "Dawgs.C02.Props.count_readings", "Dawgs.C02.Props.countHop_readings", "Dawgs.C02.Props.tr4_cases", "Dawgs.C02.Props.trVariant_cases", "Dawgs.C02.Props.opt_equiv", "Dawgs.C02.Props.opt_equiv_default",
         "Dawgs.C02.Props.limit_guard_on_fragment", "Dawgs.C02.Props.runTail_hopLimit", "Dawgs.C02.Props.trVariantL_cases", "Dawgs.C02.Props.opt_equiv_limit", "Dawgs.C02.Props.limit_pushdown_on_hop",
+        "Dawgs.C02.Props.withStages_full", "Dawgs.C02.Props.opt_equiv_stages", "Dawgs.C02.Props.opt_equiv_cross", "Dawgs.C02.Props.withCross_cases",
     ],
 }
 
@@ -187,7 +188,7 @@ SPEC = {
     "regen": do_regen,
     "lean_modules": ["Dawgs.Props.C02"],
     "theorems_by_module": THEOREMS,
-    "gate_modules": ["Dawgs.Model.C01", "Dawgs.Model.C01S2", "Dawgs.Model.C01Chain", "Dawgs.Model.C01Count", "Dawgs.Model.C01Limit", "Dawgs.Model.C02", "Dawgs.Proofs.C02", "Dawgs.Proofs.C01Limit", "Dawgs.Props.C02"],
+    "gate_modules": ["Dawgs.Model.C01", "Dawgs.Model.C01S2", "Dawgs.Model.C01Chain", "Dawgs.Model.C01Count", "Dawgs.Model.C01Limit", "Dawgs.Model.C01With", "Dawgs.Model.C01Order", "Dawgs.Model.C01Distinct", "Dawgs.Model.C01Cross", "Dawgs.Model.C02", "Dawgs.Proofs.C02", "Dawgs.Proofs.C01Limit", "Dawgs.Proofs.C01Cross", "Dawgs.Props.C02"],
     "suites": [{"name": "c02", "model_suite": "c02sem", "model_input": model_input, "impl_view": impl_view, "model_view": model_view,
                 "judge": judge, "keep_prefix": 1, "thorough_seeds": 1}],
     "nontrivial": nontrivial,
@@ -197,8 +198,8 @@ SPEC = {
     "rule": "cases = one hand-written query per rewrite rule / lowering + FOCUSED FAMILIES (harness/focused.go: variable-length step + fixed hops with every subset of the suffix nodes "
             "already bound; aggregate-only RETURN incl. collect / size(collect()) with LIMIT and no ORDER BY; the aggregate-traversal-count shape with every range form incl. *0..; "
             "collect(node) AS xs used under IN with every way of reading xs afterwards; bindings read by later clauses; named path + pattern predicate over reversible patterns with the path / "
-            "nodes(p) / relationships(p) observed directly and through WITH; string predicates with backslash / % / _ / quote literals; every grammar spelling of the ORDER BY direction — the direction handed to the reference and to the model pair is read from the TEXT, harness/sortdir.go; exact-length expansions in the spellings `*n` / `*n..n` next to a proper range, with either endpoint bound by an earlier clause and with fixed hops after them, and with a property map on the variable-length pattern — family exact-range; double literals beyond 32-bit precision in every literal position — family double-literal; LIMIT 0 / 1 / 2^31 / 2^63-1 and SKIP 0 / beyond the row count on every shape that triggers a fast path or a LIMIT-handling lowering — family limit-boundary; LIMIT over a named non-shortest-path pattern with a quantifier over relationships(p) / nodes(p) in WHERE — family limit-tail-filter; for BOTH variants the numeric literals of the statement must be written with their value in its text, harness/littie.go, key sql-text-literal-differs-from-statement) + FRAGMENT queries (the generators of C01's tie: stage S1, stage S2b (one hop with WHERE), stage S2c (chains, with and without WHERE conjuncts over single variables), stage S1c / S2n (count over a node pattern / a hop), stage S2L (a hop with LIMIT k and no ORDER BY: limit pushdown), and `MATCH (n[:K...]) RETURN count(n)`; for these the driver also "
-            "compares both REAL statements with the model variants trVariantL of opt_equiv / opt_equiv_limit (either join order of a hop; on S2L the optimised model statement carries the LIMIT on the hop frame too) — outcome frag-tie, a difference is a VIOLATION even when the evaluations agree) + every Cypher text of the repository corpora the translator accepts + structured random queries "
+            "nodes(p) / relationships(p) observed directly and through WITH; string predicates with backslash / % / _ / quote literals; every grammar spelling of the ORDER BY direction — the direction handed to the reference and to the model pair is read from the TEXT, harness/sortdir.go; exact-length expansions in the spellings `*n` / `*n..n` next to a proper range, with either endpoint bound by an earlier clause and with fixed hops after them, and with a property map on the variable-length pattern — family exact-range; double literals beyond 32-bit precision in every literal position — family double-literal; LIMIT 0 / 1 / 2^31 / 2^63-1 and SKIP 0 / beyond the row count on every shape that triggers a fast path or a LIMIT-handling lowering — family limit-boundary; LIMIT over a named non-shortest-path pattern with a quantifier over relationships(p) / nodes(p) in WHERE — family limit-tail-filter; for BOTH variants the numeric literals of the statement must be written with their value in its text, harness/littie.go, key sql-text-literal-differs-from-statement) + FRAGMENT queries (the generators of C01's tie: stage S1, stage S2b (one hop with WHERE), stage S2c (chains, with and without WHERE conjuncts over single variables), stage S1c / S2n (count over a node pattern / a hop), stage S2L (a hop with LIMIT k and no ORDER BY: limit pushdown), stages S1o, S1d, S3a, S3b, S2x, and `MATCH (n[:K...]) RETURN count(n)`; for these the driver also "
+            "compares both REAL statements with the model variants of opt_equiv / opt_equiv_limit / opt_equiv_stages / opt_equiv_cross (withCross over withStages over trVariantL: either join order of a hop; on S2L the optimised model statement carries the LIMIT on the hop frame too; on S1o / S1d / S3a / S3b one statement for both variants; on S2x pruned versus complete frame) — outcome frag-tie, a difference is a VIOLATION even when the evaluations agree) + every Cypher text of the repository corpora the translator accepts + structured random queries "
             "(levels 1-5, splitmix64(VERIF_SEED)); each is translated twice by the REAL translator: `Translate` (optimised) and the verif-tagged hook `TranslateUnoptimized` "
             "(hooks/C02.patch: no rewrite rule, no lowering plan, no fast path), plus rules-only / lowerings-only variants to attribute a difference. Both statements are evaluated by "
             "Sql.eval on encode(g) for the fixed graph family, seeded random graphs and (fixed queries) all graphs up to 2 nodes / 2 edges, and compared as ordered lists under ORDER BY "
@@ -219,7 +220,7 @@ SPEC = {
     "assumptions": ["the rewrite / lowering theorems are about abstract relational models of the transformations (bag joins, row pipelines, chain patterns over a graph) and, for the count "
                     "fast path, about the real statement shapes under Sql.eval; that the Go code implements these transformations is checked by the search, not proved",
                     "C02_full's graph hypothesis is GraphOK2 (C01: unique node and relationship ids, injective kind map, known relationship kinds, no stored JSON null)",
-                    "opt_equiv is about the model variants trVariant; it transfers to the real translator only through the per-run tie frag-tie on generated fragment queries",
+                    "opt_equiv / opt_equiv_stages / opt_equiv_cross are about the model variants trVariant / trVariantS / S2x.Query.stmtWith; it transfers to the real translator only through the per-run tie frag-tie on generated fragment queries",
                     "bounded evaluation on small graphs is search"],
 }
 
@@ -253,7 +254,7 @@ MANIFEST = {
             "since without ORDER BY the LIMIT keeps whichever rows the scan of the chosen join order delivers first; (2) the optimised rows are runTail on the guard's shape over the frame CUT to k rows, the "
             "unoptimised rows are runTail over the whole frame, so limit_pushdown_preserves applies literally (limit_pushdown_on_hop); (3) when both variants pick the same join order the two row lists are "
             "EQUAL, in order. The per-run search compares such pairs the same way (equal length + sub-bag of the uncut statement's rows). On S1 (ORDER BY id(n) SKIP / LIMIT) no lowering fires and the statements "
-            "are identical (opt_equiv (3)). C01's later stages S1o (ORDER BY on a property), S1d (RETURN DISTINCT), S2x (a hop comparing a property of a with one of b), S3a / S3b (one WITH) are NOT part of opt_equiv: their optimised / unoptimised statements are compared by the search only. NOT PROVED: C02_full for the real translator (all "
+            "are identical (opt_equiv (3)). C01's LATER STAGES: opt_equiv_stages — C02_full for every pair of variants of trVariantS = the model translator over S1, S1c, S1o (ORDER BY on a property), S1d (RETURN DISTINCT), S2b, S2c, S2n, S3a (one WITH, plain items) and S3b (a hop from the carried node after the WITH): on the four added stages the stage translators take NO optimiser switch (no join order to choose, nothing to prune, no fast path, no LIMIT to push), both variants emit the SAME statement and the equivalence is reflexivity (withStages_full lifts C02_full from any translator pair to the pair that reads these stages first); note that this needs NONE of C01's hypotheses KeyOK / KeysScalar — it says nothing about agreement with openCypher, only that the optimiser changes nothing there. That the REAL translator's optimised and unoptimised outputs on such queries are that one statement is checked per run (families fragment:s1o / s1d / s3a / s3b, frag-tie). opt_equiv_cross — stage S2x (a hop whose WHERE compares a property of a with one of b; optimised: frame pruned, unoptimised: complete frame, either join order each; withCross_cases): same bag of rows on every GraphOK2 graph in which the compared keys hold scalars (CrossScalar, the hypothesis of C01's tr_sound_S2x: both statements are permutations of the reference rows). The hypothesis-free statement for S2x (both statements compare the same jsonb values also on arrays / objects) would need an SQL-to-SQL argument over the two frames and is NOT proved; S2x is therefore not part of trVariantS / C02_full. Family fragment:s2x ties both real statements to the model pair. NOT PROVED: C02_full for the real translator (all "
             "queries); limit pushdown into the last frame of a chain; the other lowerings (late path materialisation, suffix / predicate placement, direction selection, expand-into, exact range, shortest-path strategies, aggregate traversal "
             "count) are covered by the search only. SEARCHED: every corpus / generated query both variants translate and Sql.eval models; the evidence lists which rules and lowerings fired.",
     "note": "Search compares two outputs of the real translator with each other, so it needs no Cypher semantics and is not affected by the C01 deviations (both variants share them). "
